@@ -182,6 +182,13 @@ pub fn chardata(args: &[String]) -> String {
             let b: String = chars[h..].iter().collect();
             (format!("<r>{}<![CDATA[{}]]></r>", a, b), true)
         }
+        "mergedent" => {
+            // ... with references to declared entities in the run: one of three characters, an empty one, a predefined one
+            let h = chars.len() / 2;
+            let a: String = chars[..h].iter().collect();
+            let b: String = chars[h..].iter().collect();
+            (format!("<!DOCTYPE r [<!ENTITY e 'xyz'><!ENTITY z ''>]><r>{}&e;{}&z;&amp;</r>", a, b), true)
+        }
         _ => return "bad-op".to_string(),
     };
     let doc = match XmlDocument::from_raw_with_context(&text, Context::from_text_expanded(ctx)) {
@@ -201,6 +208,7 @@ pub fn chardata(args: &[String]) -> String {
         ("comment", XmlNode::Comment(v)) => CD::Comment(v),
         ("cdata", XmlNode::CData(v)) => CD::CData(v),
         ("merged", XmlNode::ExpandedText(v)) => CD::Merged(v),
+        ("mergedent", XmlNode::ExpandedText(v)) => CD::Merged(v),
         _ => return "setup-failed".to_string(),
     };
     let mut out: Vec<String> = vec![];
